@@ -685,13 +685,18 @@ def drain(I, st, it):
         items, st = drain(I, st, it.fields[0])
         out = []
         for x in items:
-            if x[0] != 'elem':
+            gate = C1
+            base = x
+            while base[0] == 'cond':
+                gate = B.band(gate, base[1])
+                base = base[2]
+            if base[0] != 'elem':
                 raise from_undecided()('filter over symbolic item')
             cell = ('static', 'filt:%d' % next(I.frame_counter))
-            st.store[cell] = x[1]
+            st.store[cell] = base[1]
             r, st = I.call_closure(st, it.fields[1], [Ref(cell)])
-            bit = r.bits[0]
-            y = I.cond_item(bit, x)
+            bit = B.band(gate, r.bits[0])
+            y = I.cond_item(bit, base)
             if y is not None:
                 out.append(y)
         return out, st
@@ -1842,3 +1847,204 @@ def res_is_ok(I, st, fr, t, a):
         bit = d.bits[0]          # 1 = Err
         return boolv(B.bnot(bit) if want_ok else bit)
     return conv(v), st
+
+
+# ====================================================================================================================
+# Structured text: a string whose characters are known constants or symbolic one-character placeholders (used by the
+# print/parse layout rule: the printer's output skeleton is fed to the parser).  Struct('$text', (tuple of char values,))
+# ====================================================================================================================
+def text_value(chars):
+    return Struct('$text', (tuple(chars),))
+
+
+def _is_text(v):
+    return isinstance(v, Struct) and v.ty == '$text'
+
+
+def _char_eq(I, c, k):
+    """decide character c == constant code k: True / False / None"""
+    if isinstance(c, BV) and c.known():
+        return c.uval() == k
+    r = I.rng(c) if isinstance(c, (BV, Term)) else None
+    if r and (k < r[0] or k > r[1]):
+        return False
+    return None
+
+
+_prev_split = TABLE['core::str::<impl str>::split']
+
+
+def str_split_text(I, st, fr, t, a):
+    v = I.deref(st, a[0]) if isinstance(a[0], Ref) else a[0]
+    sep = a[1] if len(a) > 1 else None
+    if _is_text(v) and isinstance(sep, BV) and sep.known():
+        segs, cur = [], []
+        for c in v.fields[0]:
+            d = _char_eq(I, c, sep.uval())
+            if d is None:
+                raise from_undecided()('split of a structured text at a character that may or may not be the separator')
+            if d:
+                segs.append(cur)
+                cur = []
+            else:
+                cur.append(c)
+        segs.append(cur)
+        items = []
+        for sg in segs:
+            cell = ('static', 'seg:%d' % next(I.frame_counter))
+            st.store[cell] = text_value(sg)
+            items.append(('elem', Ref(cell)))
+        cell = ('static', 'segs:%d' % next(I.frame_counter))
+        st.store[cell] = Seq(items)
+        return Struct('$SliceIter', (Ref(cell), 0, 'owned')), st
+    return _prev_split(I, st, fr, t, a)
+
+
+TABLE['core::str::<impl str>::split'] = str_split_text
+
+_prev_chars = TABLE['core::str::<impl str>::chars']
+
+
+def str_chars_text(I, st, fr, t, a):
+    v = I.deref(st, a[0]) if isinstance(a[0], Ref) else a[0]
+    if isinstance(v, Ref):
+        v = I.deref(st, v)
+    if _is_text(v):
+        cell = ('static', 'chars:%d' % next(I.frame_counter))
+        st.store[cell] = Seq([('elem', c) for c in v.fields[0]])
+        return Struct('$SliceIter', (Ref(cell), 0, 'owned')), st
+    return _prev_chars(I, st, fr, t, a)
+
+
+TABLE['core::str::<impl str>::chars'] = str_chars_text
+
+
+def _bottoms_in_slice(it):
+    while isinstance(it, Struct) and it.ty in ('$Enumerate', '$Map', '$Filter', '$Cloned', '$Rev', '$Skip', '$Take'):
+        it = it.fields[0]
+    return isinstance(it, Struct) and it.ty == '$SliceIter'
+
+
+_drain_before_enum = drain
+
+
+def drain3(I, st, it):
+    if isinstance(it, Struct) and it.ty == '$Enumerate':
+        items, st = drain3(I, st, it.fields[0])
+        out = []
+        for k, x in enumerate(items):
+            if x[0] != 'elem':
+                raise from_undecided()('enumerate over a conditional or symbolic item (its index is not a constant)')
+            out.append(('elem', Struct('tuple', (BV.const(k, 64), x[1]))))
+        return out, st
+    if isinstance(it, Struct) and it.ty in ('$Map', '$Filter', '$Cloned') and isinstance(it.fields[0], Struct) \
+            and it.fields[0].ty == '$Enumerate':
+        items, st = drain3(I, st, it.fields[0])
+        cell = ('static', 'drained:%d' % next(I.frame_counter))
+        st.store[cell] = Seq(items)
+        flat = Struct('$SliceIter', (Ref(cell), 0, 'owned'))
+        return _drain_before_enum(I, st, Struct(it.ty, (flat,) + tuple(it.fields[1:])))
+    return _drain_before_enum(I, st, it)
+
+
+drain = drain3
+_mod.drain = drain3
+
+_prev_next_dispatch = next_dispatch
+
+
+def next_dispatch2(I, st, fr, t, a):
+    r = a[0]
+    it = I.read_at(st, r.cell, r.path) if isinstance(r, Ref) else r
+    if isinstance(it, Struct) and it.ty in ('$Enumerate', '$Map', '$Filter', '$Cloned') and _bottoms_in_slice(it) and isinstance(r, Ref):
+        # a lazy adapter chain over a concrete sequence: evaluate it once (the closures of these adapters are pure: they
+        # receive the items only) and continue as a plain owned iterator
+        try:
+            items, st = drain(I, st, it)
+        except Exception as e:
+            if e.__class__.__name__ != 'Undecided':
+                raise
+            return _prev_next_dispatch(I, st, fr, t, a)
+        cell = ('static', 'adapted:%d' % next(I.frame_counter))
+        st.store[cell] = Seq(items)
+        st.store[r.cell] = I.update(st.store[r.cell], r.path, Struct('$SliceIter', (Ref(cell), 0, 'owned')))
+        return slice_next(I, st, fr, t, a)
+    return _prev_next_dispatch(I, st, fr, t, a)
+
+
+for _i, (_pre, _h) in enumerate(PREFIX):
+    if _h is next_dispatch:
+        PREFIX[_i] = (_pre, next_dispatch2)
+for _k, _h in list(TABLE.items()):
+    if _h is next_dispatch:
+        TABLE[_k] = next_dispatch2
+
+_prev_find = TABLE['std::iter::Iterator::find']
+
+
+def iter_find2(I, st, fr, t, a):
+    it = a[0]
+    itv = I.deref(st, it) if isinstance(it, Ref) else it
+    if isinstance(itv, Struct) and itv.ty == '$SliceIter' and _iter_is_concrete(I, st, itv):
+        ty = ret_ty(I, fr, t) or OPT
+        items, st = drain(I, st, itv)
+        for x in items:
+            if x[0] != 'elem':
+                break
+            cell = ('static', 'findarg%d' % next(I.frame_counter))
+            st.store[cell] = x[1]
+            r, st = I.call_closure(st, a[1], [Ref(cell)])
+            if isinstance(r, BV) and r.bits[0] is C1:
+                return some(x[1], ty), st
+            if not (isinstance(r, BV) and r.bits[0] is C0):
+                break
+        else:
+            return none(ty), st
+    return _prev_find(I, st, fr, t, a)
+
+
+def _iter_is_concrete(I, st, itv):
+    try:
+        seq = _iter_items(I, st, itv)
+        return all(x[0] == 'elem' for x in seq.items)
+    except Exception:
+        return False
+
+
+TABLE['std::iter::Iterator::find'] = iter_find2
+
+
+def ref_rem(I, st, fr, t, a):
+    x = I.deref(st, a[0]) if isinstance(a[0], Ref) else a[0]
+    y = I.deref(st, a[1]) if isinstance(a[1], Ref) else a[1]
+    if isinstance(x, BV) and isinstance(y, BV) and x.known() and y.known() and y.uval() != 0:
+        return BV.const(x.uval() % y.uval(), x.w), st
+    return typed_opaque(I, st, fr, t, a)
+
+
+for _i, (_pre, _h) in enumerate(PREFIX):
+    if _pre == '<&usize as std::ops::Rem<usize>>::rem':
+        PREFIX[_i] = (_pre, ref_rem)
+
+
+# ---- arithmetic / bit operators applied through references (`i % 2` with i: &usize in closure patterns)
+def _ref_binop(op):
+    def h(I, st, fr, t, a):
+        x = I.deref(st, a[0]) if isinstance(a[0], Ref) else a[0]
+        y = I.deref(st, a[1]) if isinstance(a[1], Ref) else a[1]
+        if isinstance(x, (BV, Term)) and isinstance(y, (BV, Term)):
+            if op in ('Rem', 'Div') and not (isinstance(y, BV) and y.known() and y.uval() != 0):
+                return typed_opaque(I, st, fr, t, a)
+            if isinstance(x, BV) and isinstance(y, BV) and x.known() and y.known() and op in ('Rem', 'Div'):
+                return BV.const(x.uval() % y.uval() if op == 'Rem' else x.uval() // y.uval(), x.w), st
+            return I.binop(op, x, y), st
+        return typed_opaque(I, st, fr, t, a)
+    return h
+
+
+for _ty in ('usize', 'u8', 'u16', 'u32', 'u64', 'i32', 'i64'):
+    for _tr, _m, _op in (('Rem', 'rem', 'Rem'), ('Div', 'div', 'Div'), ('BitAnd', 'bitand', 'BitAnd'), ('BitOr', 'bitor', 'BitOr'),
+                         ('BitXor', 'bitxor', 'BitXor'), ('Add', 'add', 'Add'), ('Sub', 'sub', 'Sub'), ('Mul', 'mul', 'Mul')):
+        for _l, _r in (('&' + _ty, _ty), ('&' + _ty, '&' + _ty), (_ty, '&' + _ty)):
+            TABLE['<%s as std::ops::%s<%s>>::%s' % (_l, _tr, _r, _m)] = _ref_binop(_op)
+PREFIX[:] = [(p_, h_) for (p_, h_) in PREFIX if p_ != '<&usize as std::ops::Rem<usize>>::rem']
